@@ -37,4 +37,6 @@ def extra(rec, res):
 
 CHECKS = [
     Check("trace_truth", sim_execute([J.judge_c08], J.nontrivial_c08, extra=extra), strategy=worlds, budget={"quick": 2000, "thorough": 40000}),
+    Check("scripted_trace", sim_execute([J.judge_c08], J.nontrivial_c08, extra=extra, max_steps=1500), strategy=lambda tier: specs.scripted_worlds(flags=flags()),
+          budget={"quick": 500, "thorough": 20000}),
 ]
